@@ -302,3 +302,42 @@ def thm_tc_reset(t0):
         fs.time_coverage = second
         after = fs.get_info(name)
         ensures(after.times[0] == t0 and after.times[1] - after.times[0] == want, id="after time_coverage = %s the file has the new coverage (no stale cache entry)" % (second,))
+
+
+# ------------------------------------------------------------------ bounded: the JSON form of a FileInfo on real strings
+@bounded(P, "json-roundtrip-real-strings", "FileInfo.to_json_dict -> json.dumps -> json.loads -> FileInfo.from_json_dict on real strings: "
+         "datetime.min / datetime.max, every whole millisecond boundary case and 3000 (quick) / 60000 (thorough) random microsecond values, "
+         "random dates 1..9999, user attributes; times must come back identical to the microsecond")
+def bounded_json_real(rng, tier):
+    import json
+    n = 3000 if tier == "quick" else 60000
+    evals, failures, samples, distinct = 0, [], [], set()
+    fixed = [datetime.min, datetime.max, datetime(2018, 1, 1), datetime(999, 12, 31, 23, 59, 59, 999999), datetime(2018, 1, 1, 12, 0, 0, 249),
+             datetime(2018, 1, 1, 12, 0, 0, 1), datetime(2018, 1, 1, 12, 0, 0, 999000), datetime(2016, 2, 29, 0, 0, 0, 500000)]
+    for k in range(n):
+        if k < len(fixed):
+            t0 = fixed[k]
+        else:
+            t0 = datetime(rng.choice([1, 999, 1000, 1965, 2018, 2064, 9999, rng.randint(1, 9999)]), rng.randint(1, 12), rng.randint(1, 28),
+                          rng.randint(0, 23), rng.randint(0, 59), rng.randint(0, 59), rng.randint(0, 999999))
+        t1 = min(datetime.max, t0 + timedelta(microseconds=rng.choice([0, 1, 999999, rng.randint(0, 10**9)]))) if t0 < datetime.max else t0
+        info = FileInfo("/data/%d.nc" % k, [t0, t1], {"satname": "A", "orbit": k})
+        evals += 1
+        distinct.add(t0.microsecond)
+        try:
+            back = FileInfo.from_json_dict(json.loads(json.dumps(info.to_json_dict())))
+        except Exception as exc:
+            failures.append({"times": [str(t0), str(t1)], "problem": "exception %r" % (exc,)})
+            continue
+        if list(back.times) != [t0, t1] or back.path != info.path or back.attr != info.attr:
+            failures.append({"times": [t0.isoformat(), t1.isoformat()], "restored": [str(x) for x in back.times], "attr": back.attr})
+        elif len(samples) < 3:
+            samples.append({"times": [t0.isoformat(), t1.isoformat()]})
+    return {"evaluations": evals, "distinct_nontrivial": len(distinct), "failures": failures[:5], "samples": samples}
+
+
+# the fault-injection programs only make sense on the ghost disk: no concrete replay (found by replaying every theorem
+# concretely on the unchanged tree: these two "failed" there)
+for _t in REG.theorems:
+    if _t.prop == P and _t.tid in ("save-is-crash-consistent", "load-failures-warn"):
+        _t.no_concrete_replay = True
